@@ -351,6 +351,8 @@ def regressions(ctx, rng):
         b = O.tagged_mesh(['MeshTri1', 'MeshQuad1', 'MeshTet1', 'MeshHex1'][it % 4], rng, holes=False,
                           size=[2, 3] if it % 4 < 2 else [2, 2, 2])
         run_op(ctx, O.op_second_order, b, rng)
+        # + and @ with a left operand that has unused trailing points
+        run_op(ctx, O.op_join_unused_left, O.tagged_mesh(['MeshTri1', 'MeshQuad1', 'MeshTet1', 'MeshHex1'][it % 4], rng, holes=False), rng)
         # extrusion of a mesh with unused trailing points
         run_op(ctx, O.op_extrude_unused, O.tagged_mesh('MeshTri1', rng, holes=False), rng)
 
